@@ -20,10 +20,10 @@ from vlib import core
 
 FAMILIES = {
     #            family  L  workers
-    "quick": [("rte", 4), ("rex", 4), ("rts", 9), ("rtsbig", 3), ("wa", 3), ("wf", 3)],
-    "thorough": [("rte", 5), ("rex", 5), ("rts", 9), ("rtsbig", 4), ("wa", 4), ("wf", 4)],
+    "quick": [("rte", 4), ("rte2", 3), ("rex", 4), ("rts", 9), ("rtsbig", 3), ("wa", 3), ("wf", 3)],
+    "thorough": [("rte", 5), ("rte2", 4), ("rex", 5), ("rts", 9), ("rtsbig", 4), ("wa", 4), ("wf", 4)],
 }
-ID_FAMILIES = {"rte", "rex", "wa", "wf"}
+ID_FAMILIES = {"rte", "rte2", "rex", "wa", "wf"}
 INVARIANTS = "Correct NoBad CarrySound ProbeOnlyExactFit NotStuck Emit"
 
 
@@ -442,3 +442,24 @@ def replay(path):
     print("observed now:", json.dumps(outs[0]))
     print("verdict:", "REJECTED by IoHelpersTrace" if bad else "accepted")
     return 1 if bad else 0
+
+
+def selftest():
+    """anti-vacuity: every stored negative patch (seeded/C15-*/patch.diff) applied to a scratch
+    copy of /repo must make the quick check print a VIOLATION (bin/mutant-test exits 0).  The
+    falsified-record test of the judge runs inside every normal run."""
+    import glob
+    import subprocess
+    ok = True
+    for d in sorted(glob.glob(os.path.join(core.VERIF, "seeded", "C15-*"))):
+        patch = os.path.join(d, "patch.diff")
+        p = subprocess.run([os.path.join(core.VERIF, "bin", "mutant-test"), patch, "C15"],
+                           stdout=subprocess.PIPE, stderr=subprocess.STDOUT, text=True)
+        det = p.returncode == 0
+        ok = ok and det
+        print("%s: %s" % (os.path.basename(d), "detected (VIOLATION)" if det else "NOT DETECTED"))
+        for l in p.stdout.splitlines():
+            if l.startswith("[verif] violation:"):
+                print("    " + l[:240])
+                break
+    return 0 if ok else 1
